@@ -128,6 +128,7 @@ func c14Sender(rc *RunCtx) *Violation {
 		}
 	}
 	kinds := ""
+	hugeSends := 0
 	for {
 		st, ok := rc.NextStep(gen)
 		if !ok {
@@ -142,6 +143,12 @@ func c14Sender(rc *RunCtx) *Violation {
 				maxPieces := 4000 // quick tier: keep runs short; thorough goes to the protocol limit
 				if rc.Thorough() {
 					maxPieces = 65000
+					// ... once per run: every piece is a wire message, an archive entry and a recorded
+					// call; twenty messages of 65 000 pieces in each of 16 worker processes take tens of
+					// gigabytes, and a worker killed for that is the machine's trouble, not otr3's
+					if hugeSends > 0 {
+						maxPieces = 8000
+					}
 				}
 				for st.B > 1 && ([]int{0, 3, 12, 40, 200, 900, 3000, 20000, 70000}[st.B%9]*4/3+600)/payload+1 > maxPieces {
 					st.B--
@@ -150,6 +157,9 @@ func c14Sender(rc *RunCtx) *Violation {
 			}
 			r1, _ := w1.Exec(st)
 			r0, _ := w0.Exec(st)
+			if r1 != nil && len(r1.Out) > 8000 {
+				hugeSends++
+			}
 			if st.A%2 == 0 && r1 != nil && r0 != nil {
 				if v := check(r1, r0); v != nil {
 					return v
